@@ -2189,7 +2189,9 @@ namespace bloch::runtime {
                     v.type = Value::Type::Char;
                 else if (prim->name == "qubit") {
                     v.type = Value::Type::Qubit;
-                    v.qubit = allocateTrackedQubit(var->name);
+                    // 'qubit b = a;' names an existing qubit: nothing is allocated for it
+                    if (!var->initializer)
+                        v.qubit = allocateTrackedQubit(var->name);
                 }
             } else if (auto arr = dynamic_cast<ArrayType*>(var->varType.get())) {
                 if (auto elem = dynamic_cast<PrimitiveType*>(arr->elementType.get())) {
